@@ -82,7 +82,7 @@ def r1_one_impl(rep, ctx):
     afn = m.method("Array", "_DoOperation")
     aname, adb, acalls = _opfunc_calls(m, afn)
     ares = Resolver(m, afn)
-    rep.floor("C10.R1", "operation calls in Array._DoOperation", len(acalls), 2)
+    rep.floor("C10.R1", "operation calls in Array._DoOperation", len(acalls), 1)
     p1, p2 = afn.params[1], afn.params[2]
 
     def side(t):
@@ -109,7 +109,7 @@ def r1_one_impl(rep, ctx):
                     gens = [x for x in own_nodes(g.node) if isinstance(x, ast.Call) and isinstance(x.func, ast.Name) and x.func.id == "_ValueGenerator"]
                     gen_fn = g
                     ares_g = Resolver(m, g)
-    rep.floor("C10.R1", "_ValueGenerator constructions", len(gens), 3)
+    rep.floor("C10.R1", "_ValueGenerator constructions", len(gens), 1)
     for g in gens:
         a, b = ((ares if gen_fn is afn else ares_g).term(x) for x in g.args[:2])
         rep.check(side(a) == {1} and side(b) == {2}, "C10.R1", "Array._DoOperation:%s" % norm(ast.unparse(g)), "the pair generator gets the left operand's values first and the right operand's second",
@@ -214,7 +214,7 @@ def r3_definite(rep, ctx):
                 ok = definitely_assigned(cfg, x.id, r)
                 rep.check(ok, "C10.R3", "Array._DoOperation:%s@%s" % (x.id, norm(ast.unparse(node))[:50]), "`%s` is assigned on every path to this return" % x.id,
                           "`%s` is read at the return but only assigned inside the per-element loop: with empty operands the loop does not run and the read raises UnboundLocalError" % x.id, node=node, fn=fn)
-    rep.floor("C10.R3", "locals read at returns", n, 4)
+    rep.floor("C10.R3", "locals read at returns", n, 2)
 
 
 def r3b_result_quantity(rep, ctx):
@@ -236,7 +236,7 @@ def r3b_result_quantity(rep, ctx):
                 bad.append(show(a, 60))
             rep.check(not bad, "C10.R3", "Array._DoOperation:result-quantity:%s" % norm(ast.unparse(r))[:50], "the result's quantity is the one the database operation returned",
                       "the result can be built with %s instead of the quantity computed by the database operation (e.g. 2 / empty-array keeps 'm' instead of '1/m')" % bad, node=r, fn=fn)
-    rep.floor("C10.R3", "result constructions", n, 2)
+    rep.floor("C10.R3", "result constructions", n, 1)
 
 
 def r4_container(rep, ctx):
@@ -295,7 +295,7 @@ def r5_from_scalars(rep, ctx):
     getvals = [g for g in own_nodes(fn.node) if isinstance(g, ast.Call) and isinstance(g.func, ast.Attribute) and g.func.attr in ("GetValue", "GetAbstractValue")]
     raw0 = [x for x in own_nodes(fn.node) if isinstance(x, ast.Attribute) and x.attr in ("value", "_value", "values")]
     if not raw0:
-        rep.floor("C10.R5", "GetValue calls in FromScalars", len(getvals), 2)
+        rep.floor("C10.R5", "GetValue calls in FromScalars", len(getvals), 1)
     for g in getvals:
         same = bool(g.args) and unit_arg is not None and ast.dump(g.args[0]) == ast.dump(unit_arg)
         rep.check(same, "C10.R5", "FromScalars:%s" % norm(ast.unparse(g)), "the element is expressed in the unit that the new Array is given", "an element is taken with GetValue(%s) but the Array is built with unit=%s" % (ast.unparse(g.args[0]) if g.args else "", ast.unparse(unit_arg) if unit_arg is not None else None), node=g, fn=fn)
@@ -326,7 +326,7 @@ def r6_passthrough(rep, ctx):
             ok = all(a[0] == "param" and a[2] == want for a in alternatives(t))
             rep.check(ok, "C10.R6", "_ValueGenerator.__init__:%s" % st.targets[0].attr, "operand %s is stored unchanged" % st.targets[0].attr,
                       "operand %s is stored as %s: elements are no longer the operand's own values (coercion changes element values / dtype)" % (st.targets[0].attr, show(t, 100)), node=st, fn=init)
-    rep.floor("C10.R6", "operand stores", n, 2)
+    rep.floor("C10.R6", "operand stores", n, 1)
     it = m.method("_ValueGenerator", "__iter__")
     ires = Resolver(m, it, flow=True)
     ny = 0
@@ -347,7 +347,7 @@ def r6_passthrough(rep, ctx):
                     ok = f0 == {"p1"} and f1 == {"p2"}
             rep.check(ok, "C10.R6", "_ValueGenerator.__iter__:%s" % norm(ast.unparse(y)), "yields (left, right) made of the operands themselves or their own elements",
                       "the generator yields %s" % show(t, 120), node=y, fn=it)
-    rep.floor("C10.R6", "yields", ny, 5)
+    rep.floor("C10.R6", "yields", ny, 2)
 
 
 def r7_getvalues(rep, ctx):
@@ -356,7 +356,7 @@ def r7_getvalues(rep, ctx):
     res = Resolver(m, fn, flow=False)
     unit_i = fn.params.index("unit")
     convs = [c for c in own_nodes(fn.node) if isinstance(c, ast.Call) and ((isinstance(c.func, ast.Attribute) and c.func.attr == "Convert") or (isinstance(c.func, ast.Name) and c.func.id == "Convert"))]
-    rep.floor("C10.R7", "Convert calls in Array.GetAbstractValue", len(convs), 2)
+    rep.floor("C10.R7", "Convert calls in Array.GetAbstractValue", len(convs), 1)
     for c in convs:
         f = res.term(c.func)
         recv_ok = all(a == ("attr", ("field", "_quantity"), "Convert") for a in alternatives(f))
